@@ -2,7 +2,7 @@
   Props/C03.lean — Handler chain: ordered, at-most-once, onion nesting, stops on write or cancel.
 
   Quantifier: every configuration `c : Cfg` (any middleware / group / route handler lists, action
-  present or nil, any handler programs over write/body/next/cancel/map/panic/hook-panic with any
+  present or nil, request method HEAD or not (`c.head`), any handler programs over write/body/next/cancel/map/panic/hook-panic with any
   return effect, Recovery and unresolvable handlers anywhere, both environments, both settings of
   `onceBug`).  `serve c` is one request; `run c f st` is one call of `run()`, i.e. one `Next()`.
   Slots are numbered along `c.chain = mw ++ grp ++ rt`, the action is slot `c.n`.
@@ -136,8 +136,8 @@ theorem auto_advance_starts_next (c : Cfg) (f : Nat) (st1 : St) (hc : st1.cancel
 /-! ### fuel: the interpreter never runs dry -/
 
 /-- `serve` gives `run` more fuel than it can use: any larger amount yields the same request. -/
-theorem serve_fuel_sufficient (c : Cfg) (g : Nat) (hg : c.fuel ≤ g) : run c g {} = run c c.fuel {} :=
-  run_fuel_irrelevant c c.fuel g {} (by show c.n + 1 - 0 ≤ c.n + 2; omega) hg
+theorem serve_fuel_sufficient (c : Cfg) (g : Nat) (hg : c.fuel ≤ g) : run c g c.st0 = run c c.fuel c.st0 :=
+  run_fuel_irrelevant c c.fuel g c.st0 (by show c.n + 1 - 0 ≤ c.n + 2; omega) hg
 
 /-! ### non-vacuity -/
 
@@ -160,6 +160,16 @@ example :
 example :
     let c : Cfg := { mw := [.plain { acts := [.cancel] }, .plain { acts := [] }] }
     (serve c).trace = [.enter 0, .exit 0] := by
+  decide
+
+/-- HEAD: a group guard that answers only with a returned body ("admins only", no explicit status).
+    The writer forwards no body for HEAD but still commits the implicit 200, so the response counts
+    as written and the guarded route handler is not started. -/
+example :
+    let c : Cfg := { grp := [.plain { acts := [], ret := .body 11 }], rt := [.plain { acts := [.write 204] }],
+                     head := true }
+    (serve c).trace = [.enter 0, .exit 0] ∧ (serve c).w.status = 200 ∧
+      (serve c).w.under = [Writer.UEv.hdr 200] ∧ (serve c).out = [] := by
   decide
 
 end Flamego.Chain
